@@ -412,6 +412,10 @@ listener_accept_cb(void *arg)
 		    "Connection for socket<%u>: %s", nni_sock_id(l->l_sock),
 		    nng_strerror(rv));
 		nni_listener_bump_error(l, rv);
+		// It can also be a single connection that was aborted while
+		// it was being set up.  Keep accepting; if we really are
+		// shutting down, the transport fails this with NNG_ECLOSED.
+		listener_accept_start(l);
 		break;
 	case NNG_ECONNRESET: // remote condition, no cool down
 	case NNG_ETIMEDOUT:  // No need to sleep, we timed out already.
